@@ -108,7 +108,18 @@ def run(ctx: Ctx):
     return "other", ("Mixed: monoid-law obligations (L1-L5) over the blueprints returned by the real _initialize_aggregation are proved for all values; the execution of a blueprint by the machinery (including user-defined Aggregation objects) is a bounded stand-in. " + note)
 
 
+def _case_of(payload):
+    if "case" in payload:
+        return payload["case"]
+    m = payload.get("model")
+    return m.get("case") if isinstance(m, dict) else None
+
+
 def replay(payload):
+    if _case_of(payload) is None:
+        print("REPLAY: obligation", payload.get("obligation"), "-", payload.get("formula"), "| solver:", str(payload.get("solver_output"))[:500])
+        return 1
+    payload = {**payload, "case": _case_of(payload)}
     r = check(payload["case"])
     print("REPLAY:", "contract holds" if r is None else r["why"])
     return 0 if r is None else 1
